@@ -11,6 +11,7 @@ package c16
 
 import (
 	"fmt"
+	"io"
 	"net"
 	"strings"
 	"sync"
@@ -376,6 +377,8 @@ type StreamCase struct {
 	Retry bool `json:"retry,omitempty"`
 	// WriteTimeoutMs > 0: the association is served by a Server with that WriteTimeout.
 	WriteTimeoutMs int `json:"write_timeout_ms,omitempty"`
+	// ReadTimeout: the association is served by a Server with a ReadTimeout (5 s, never reached here).
+	ReadTimeout bool `json:"read_timeout,omitempty"`
 }
 
 // HReq is one request for the plain handler.
@@ -470,6 +473,10 @@ func runStream(c StreamCase) *ev.Failure {
 				fail(fmt.Sprintf("instruction AVP of %d bytes", len(p)))
 				return
 			}
+			if m.Header.EndToEndID&4 != 0 {
+				// a relay forwards the request to another peer first, on a stream of that association
+				m.WriteToStream(io.Discard, m.MessageStream()+7)
+			}
 			if c.Late {
 				hmu.Lock()
 				kept = append(kept, keptReq{conn, m, refcodec.Get32(p[4:])})
@@ -520,9 +527,12 @@ func runStream(c StreamCase) *ev.Failure {
 	if c.Pinned != nil {
 		sc.SetWriterStream(uint(*c.Pinned))
 	}
-	if c.WriteTimeoutMs > 0 {
+	if c.WriteTimeoutMs > 0 || c.ReadTimeout {
 		lis := memnet.NewListener(1)
 		srv := &diam.Server{Handler: handler, Dict: dict.Default, WriteTimeout: time.Duration(c.WriteTimeoutMs) * time.Millisecond}
+		if c.ReadTimeout {
+			srv.ReadTimeout = 5 * time.Second
+		}
 		go srv.Serve(lis)
 		defer lis.Close()
 		lis.Push(sc)
@@ -655,6 +665,7 @@ func genStream(t *rapid.T) StreamCase {
 	if rapid.IntRange(0, 3).Draw(t, "write-timeout") == 0 {
 		c.WriteTimeoutMs = rapid.IntRange(1, 50).Draw(t, "write-timeout-ms")
 	}
+	c.ReadTimeout = rapid.IntRange(0, 3).Draw(t, "read-timeout") == 0
 	return c
 }
 
@@ -731,14 +742,20 @@ func classifyStream(c StreamCase) (bool, []string) {
 	if changes {
 		cl["stream-changes-between-requests"] = true
 	}
+	if c.ReadTimeout {
+		cl["server-with-read-timeout"] = true
+	}
+	if c.WriteTimeoutMs > 0 {
+		cl["server-with-write-timeout"] = true
+	}
 	// on stream 0 alone the default stream would do
 	return nonzero, keys(cl)
 }
 
 var streamProp = ev.Register(&ev.Prop[StreamCase]{
 	ID: "C16", Name: "stream",
-	Rule: "an in-memory SCTP association served by diam.NewConn: either 1..6 requests (any request command of dict.Default, generated ids and flags), each on a stream 0..15, whole or in two pieces, answered by a handler " +
-		"with m.Answer(rc) written through WriteTo(conn) or through Serialize + conn.Write; or a server state machine receiving a CER (accepted / rejected) and DWRs, each on its own stream. " +
+	Rule: "an in-memory SCTP association served by diam.NewConn: either 1..6 requests (any request command of dict.Default, generated ids and flags), each on a stream 0..15, whole or in two pieces, answered by a handler (which first forwards some of them with WriteToStream to another writer and stream, as a relay does) " +
+		"with m.Answer(rc) written through WriteTo(conn) or through Serialize + conn.Write; or a server state machine receiving a CER (accepted / rejected) and DWRs, each on its own stream; 1 in 4 cases each the association is served by a Server with a WriteTimeout and / or a ReadTimeout. " +
 		"Demanded: the k-th write recorded by the backend is the answer to the k-th request and carries that request's stream number (state machine: also the mirrored header as in sm-wire). " +
 		"Late answers: the handler keeps the requests and the application answers them afterwards, in order or (8..96 requests with distinct hop-by-hop ids) all at once from a goroutine each; then every request has exactly one answer, paired by that id, on its stream. " +
 		"non-trivial = some request arrives on a stream other than 0",
